@@ -977,6 +977,12 @@ def readGraph(input_file,
                 G.remove_node('\\n')
             except networkx.exception.NetworkXError:
                 pass
+            # Node names in a dot file are strings: when they are all
+            # integers compare them as such, so that '10' follows '9'.
+            try:
+                G = networkx.relabel_nodes(G, {v: int(v) for v in G.nodes()})
+            except ValueError:
+                pass
             G = graph_class.normalize(G)
         except TypeError:
             raise ValueError('Parse Error in dot file\n' + diagnostics.getvalue())
